@@ -427,6 +427,11 @@ impl WorkerTree {
     }
 
     fn insert_source(&mut self, path: PathBuf, output: Option<PathBuf>) {
+        if let Some(output) = output.as_ref() {
+            // the source is back: its output must not be deleted by the next clean up
+            self.remove_files.retain(|removed| removed != output);
+        }
+
         let node_index = self.graph.add_node(if let Some(output) = output {
             WorkItem::new(path.clone(), output)
         } else {
